@@ -161,6 +161,15 @@ def run(prog, rep):
                         rep.ok("str-call-sites", f"{m.name}.{fn.qualname}: BTSString.{c.func.attr} width {v}")
                     else:
                         rep.fail("str-call-sites", m.path.name, fn.qualname, c, f"string field width `{norm(w)}` is not one of the format's widths {WIDTHS}")
+    # text written to a stream without going through BTSString (no width check, no terminator)
+    from ..codecs import Codecs
+    from ..layout import Raw, walk_terms
+    cd = Codecs(prog)
+    for u in cd.all_units():
+        for t in walk_terms(u.wterms):
+            if isinstance(t, Raw) and t.op == "write" and t.value is not None and any(isinstance(x, ast.Call) and isinstance(x.func, ast.Attribute) and x.func.attr == "encode" for x in ast.walk(t.value)):
+                rep.fail("str-call-sites", u.writer.module.path.name, u.writer.qualname, t.stmt or t.node,
+                         "a text field is encoded and written without BTSString.write: nothing refuses over-long text or guarantees the NUL terminator, so it can spill into the next field")
     rep.floor("str-call-sites/writers", n_w, 11)
     rep.floor("str-call-sites/readers", n_r, 9)
     rep.trusted += ["str.encode('windows-1252') in strict mode raises UnicodeEncodeError (a ValueError) for unencodable text",
